@@ -54,7 +54,22 @@ public:
 
     constexpr auto operator=(mapping const&) noexcept -> mapping& = default;
 
-    [[nodiscard]] constexpr auto required_span_size() const noexcept -> index_type;
+    [[nodiscard]] constexpr auto required_span_size() const noexcept -> index_type
+    {
+        if constexpr (rank == 0) {
+            return index_type(1);
+        } else {
+            auto result = index_type(1);
+            for (rank_type r{0}; r < rank; ++r) {
+                if (_extents.extent(r) == index_type(0)) {
+                    return index_type(0);
+                }
+                result = static_cast<index_type>(result + (_extents.extent(r) - index_type(1)) * _strides[r]);
+            }
+            return result;
+        }
+    }
+
     [[nodiscard]] constexpr auto extents() const noexcept -> extents_type const& { return _extents; }
     [[nodiscard]] constexpr auto strides() const noexcept -> array<index_type, rank> { return _strides; }
     [[nodiscard]] constexpr auto stride(rank_type i) const noexcept -> index_type
